@@ -20,7 +20,7 @@ TECHNIQUE = 'runtime monitoring under a deterministic scheduler: exhaustive dept
 def run(ctx):
     for c in ('depth1-cases', 'boundaries-enumerated', 'client:index-requery-after-loose-miss', 'probe-between-commit-and-unlink',
               'probe-between-pack-write-and-commit', 'probe-after-some-loose-unlinked', 'depth2-cases', 'random-schedules',
-              'context-switches', 'op:seek', 'op:write-dup', 'multi-process-runs', 'multi-process-client-ops'):
+              'context-switches', 'op:seek', 'op:write-dup', 'op:bulkseek', 'depth1-cases-with-full-scan-lookups', 'multi-process-runs', 'multi-process-client-ops'):
         ctx.require(c)
     cases = []
     packers = conclab.PACKER_VARIANTS if not ctx.quick else [('no', False), ('yes', True), ('auto', True)]
@@ -34,6 +34,11 @@ def run(ctx):
         for probe in conclab.PROBES:
             for pinned in (False, True):
                 cases.append({'direction': 'packer-in-client', 'mode': mode, 'clpp': clpp, 'probe': probe, 'pinned': pinned, 'seed': ctx.seed})
+    # the same placements with the clients' lookup thresholds shadowed (ordered full scan instead of IN-chunks, also in the fallback)
+    for probe in ('bulk', 'meta', 'has', 'bulkseek'):
+        for direction in ('probe-in-packer', 'packer-in-client'):
+            cases.append({'direction': direction, 'mode': 'yes', 'clpp': True, 'probe': probe, 'pinned': direction == 'probe-in-packer',
+                          'seed': ctx.seed, 'low': True, 'pack_target': 700})
     ctx.map(conclab.run_depth1, cases)
     d2 = []
     for mode, clpp in (packers if not ctx.quick else [('yes', True)]):
